@@ -1964,7 +1964,7 @@ func (self *Aof) WaitRewriteAofFiles() error {
 
 func (self *Aof) rewriteAofFiles() {
 	self.glock.Lock()
-	if self.isRewriting {
+	if self.isRewriting || self.closed {
 		self.glock.Unlock()
 		return
 	}
